@@ -216,7 +216,7 @@ def _parse_config_value(val: Any, field_type: Any, path: List[str]) -> Any:
                     ret.append(_parse_config_value(elem, elem_type, path))
                     path.pop()
                 return tuple(ret)
-        elif len(val) == len(field_type.__args__):
+        else:
             if isinstance(val, (list, tuple)) and (len(val) == len(field_type.__args__)):
                 ret = []
                 for (i, elem) in enumerate(val):
